@@ -15,7 +15,7 @@ import (
 func init() {
 	Registry["C09"] = C09
 	Metas["C09"] = Meta{
-		Explanation: "Decides the clauses of C09 by role evaluation over all sign regions of the TTL argument and of the default: (X1) the TTL computation of each cache implementation returns now+d for d > 0; for d == DefaultExpiration it substitutes the default loaded from the settings during this very call (one load, the same value is tested and added) and returns now+D for D > 0 and 0 (never expires) otherwise; every other d <= 0 yields 0; no other comparison is involved; (X2) every item a method stores carries the expiration computed in that call from that method's own TTL argument (Set / GetAndSet / GetAndRefresh on a live entry / Compute and the storing branches of GetOrSet and GetOrCompute re-arm; SetDefault and SetForever use the documented sentinels), while Get*, Range, Items and the hit branches of GetOrSet / GetOrCompute leave the stored item untouched - as rows of the reviewed reference table; (X3) GetWithExpiration reports Unix(0, e) exactly when e > 0 and the zero time otherwise, GetWithTTL reports Until(Unix(0, e)) exactly when e > 0 and NoExpiration otherwise, both only for an entry that tested unexpired; (X4) settings flow: SetDefaultExpiration stores its argument, the option functions write their own config field from their own argument, the constructor stores the normalised config's default into the setting (never a sibling field), and NewDefault passes its two durations to the fields of the same name. NOT decided: arithmetic at the int64 / time.Time boundaries, wall-clock vs monotonic readings.",
+		Explanation: "Decides the clauses of C09 by role evaluation over all sign regions of the TTL argument and of the default: (X1) the TTL computation of each cache implementation returns now+d for d > 0; for d == DefaultExpiration it substitutes the default loaded from the settings during this very call (one load, the same value is tested and added) and returns now+D for D > 0 and 0 (never expires) otherwise; every other d <= 0 yields 0; no other comparison is involved; (X2) every item a method stores carries the expiration computed in that call from that method's own TTL argument (Set / GetAndSet / GetAndRefresh on a live entry / Compute and the storing branches of GetOrSet and GetOrCompute re-arm; SetDefault and SetForever use the documented sentinels), while Get*, Range, Items and the hit branches of GetOrSet / GetOrCompute leave the stored item untouched - as rows of the reviewed reference table; (X3) GetWithExpiration reports Unix(0, e) exactly when e > 0 and the zero time otherwise, GetWithTTL reports Until(Unix(0, e)) exactly when e > 0 and NoExpiration otherwise, both only for an entry that tested unexpired; (X4) settings flow: SetDefaultExpiration stores its argument, the option functions write their own config field from their own argument, the constructor stores the normalised config's default into the setting (never a sibling field), option functions and the NewDefault family write their duration arguments on every path (no value is silently replaced by a default), and NewDefault passes its two durations to the fields of the same name. NOT decided: arithmetic at the int64 / time.Time boundaries, wall-clock vs monotonic readings.",
 		Rule:        "one obligation per (rule, function, partition or table row); non-trivial = decided from evaluated abstract paths",
 		Assumptions: []string{"time.Now / Time.Add / UnixNano / time.Unix / time.Until behave as documented"},
 	}
@@ -183,44 +183,7 @@ func involvesConst(t *sym.Term, c int64) bool {
 
 // c09X4: settings flow through options and constructors (def-use, structural).
 func c09X4(r *Run, rep *core.Report) {
-	n := 0
-	// option functions: With<Field>[Of](x) returns a closure storing x into config.<Field>
-	for _, f := range r.P.Funcs {
-		if f.Pkg != r.P.Cache || f.Parent() == nil || f.Parent().Signature.Recv() != nil {
-			continue
-		}
-		par := f.Parent()
-		if par.Object() == nil || !par.Object().Exported() || !strings.HasPrefix(par.Name(), "With") {
-			continue
-		}
-		n++
-		rep.Fn(fn(par))
-		want := strings.TrimSuffix(strings.TrimPrefix(par.Name(), "With"), "Of")
-		stores := 0
-		okv := true
-		why := ""
-		core.Instrs(f, func(in ssa.Instruction) {
-			st, ok := in.(*ssa.Store)
-			if !ok {
-				return
-			}
-			a := core.Addr(st.Addr)
-			if _, isParam := a.Root.(*ssa.Parameter); !isParam || a.Field == "" {
-				return
-			}
-			stores++
-			if a.Field != want {
-				okv, why = false, "writes config field "+a.Field
-			}
-			// value: the captured argument of the option constructor
-			v := resolve(st.Val, 0)
-			if p, isP := v.(*ssa.Parameter); !isP || p.Parent() != par {
-				okv, why = false, "stores "+st.Val.Name()+" which is not the option's own argument"
-			}
-		})
-		rep.Check(okv && stores == 1, "C09.X4", fn(par)+" sets its own field", r.P.Pos(par.Pos()), "option writes config."+want+" from its own argument", "option function does not write exactly its own config field ("+want+") from its own argument: "+why)
-	}
-	rep.MinCount("C09.X4", "option functions", n, 8)
+	optionFlow(r, rep, "C09.X4")
 	// constructors: the value stored into the defaultExpiration setting is cfg.DefaultExpiration of the normalised config
 	for twin := 0; twin < 2; twin++ {
 		ctor := r.M.CacheCtor[twin]
@@ -404,4 +367,53 @@ func defaultCtorFlow(r *Run, rep *core.Report, rule string) {
 		}
 	}
 	rep.MinCount(rule, "duration arguments of default constructors", n, 4)
+}
+
+// optionFlow: every option function With<Field>[Of](x) returns a closure that stores x - the option's own argument,
+// whatever its value - into config.<Field>, on every path.
+func optionFlow(r *Run, rep *core.Report, rule string) {
+	n := 0
+	// option functions: With<Field>[Of](x) returns a closure storing x into config.<Field>
+	for _, f := range r.P.Funcs {
+		if f.Pkg != r.P.Cache || f.Parent() == nil || f.Parent().Signature.Recv() != nil {
+			continue
+		}
+		par := f.Parent()
+		if par.Object() == nil || !par.Object().Exported() || !strings.HasPrefix(par.Name(), "With") {
+			continue
+		}
+		n++
+		rep.Fn(fn(par))
+		want := strings.TrimSuffix(strings.TrimPrefix(par.Name(), "With"), "Of")
+		stores := 0
+		okv := true
+		why := ""
+		core.Instrs(f, func(in ssa.Instruction) {
+			st, ok := in.(*ssa.Store)
+			if !ok {
+				return
+			}
+			a := core.Addr(st.Addr)
+			if _, isParam := a.Root.(*ssa.Parameter); !isParam || a.Field == "" {
+				return
+			}
+			stores++
+			if a.Field != want {
+				okv, why = false, "writes config field "+a.Field
+			}
+			// unconditional: an option that skips the write for some values silently keeps the default
+			core.Instrs(f, func(in2 ssa.Instruction) {
+				if ret, isRet := in2.(*ssa.Return); isRet && !core.Dominates(st, ret) {
+					okv, why = false, "writes its field only on some paths (for other argument values the default stays in force)"
+				}
+			})
+			// value: the captured argument of the option constructor
+			v := resolve(st.Val, 0)
+			if p, isP := v.(*ssa.Parameter); !isP || p.Parent() != par {
+				okv, why = false, "stores "+st.Val.Name()+" which is not the option's own argument"
+			}
+		})
+		rep.Check(okv && stores == 1, rule, fn(par)+" sets its own field", r.P.Pos(par.Pos()), "option writes config."+want+" from its own argument", "option function does not write exactly its own config field ("+want+") from its own argument: "+why)
+	}
+	rep.MinCount(rule, "option functions", n, 8)
 }
